@@ -3,7 +3,6 @@ package kit
 import (
 	"bytes"
 	"crypto/sha256"
-	"encoding/binary"
 	"fmt"
 	"sort"
 	"time"
@@ -72,12 +71,24 @@ type NetSpec struct {
 	Allow    int `json:"allow"`    // v2 allow height, >= 1
 	ReqOff   int `json:"req_off"`  // require = allow + ReqOff
 	CutOff   int `json:"cut_off"`  // final cut = require + CutOff
+	// Hard selects a harder initial proof-of-work target (difficulty ~2^(4*Hard)
+	// instead of ~1), which gives the per-block difficulty adjustment enough
+	// resolution for chain length and accumulated work to come apart.
+	Hard int `json:"hard,omitempty"`
 }
 
 // Network builds the consensus network and the genesis block of a case.
 func (ns NetSpec) Network() (*consensus.Network, types.Block) {
 	n, genesis := chain.TestnetZen()
 	n.InitialTarget = types.BlockID{0xFF}
+	switch clamp(ns.Hard, 0, 3) {
+	case 1:
+		n.InitialTarget = types.BlockID{0x10} // difficulty ~16
+	case 2:
+		n.InitialTarget = types.BlockID{0x01} // ~256
+	case 3:
+		n.InitialTarget = types.BlockID{0x00, 0x10} // ~4096
+	}
 	n.BlockInterval = time.Second
 	n.MaturityDelay = uint64(clamp(ns.Maturity, 1, 10))
 	n.HardforkDevAddr.Height = 1
@@ -458,9 +469,28 @@ func (bb *BlockBuilder) Add(in Intent) bool {
 			bb.skip(in, "no-contract")
 			return false
 		}
-		c := cands[mod(in.Pick, len(cands))]
+		// flatten to (contract, op) pairs; time-constrained operations (proofs,
+		// expirations) are weighted up so that they happen while they can
+		type pair struct {
+			id types.FileContractID
+			op string
+		}
+		var pairs []pair
+		for _, c := range cands {
+			for _, op := range c.ops {
+				w := 1
+				if op == "v1proof" || op == "v2proof" || op == "v2expire" {
+					w = 3
+				}
+				for k := 0; k < w; k++ {
+					pairs = append(pairs, pair{c.id, op})
+				}
+			}
+		}
+		pr := pairs[mod(in.Pick*7+in.A, len(pairs))]
+		c := cand{id: pr.id}
 		gen := in
-		gen.Kind = c.ops[mod(in.A, len(c.ops))]
+		gen.Kind = pr.op
 		gen.A = in.A / 3
 		bb.onlyFC = &c.id
 		bb.serial--
@@ -555,6 +585,18 @@ func (bb *BlockBuilder) Add(in Intent) bool {
 		rv := validSum.Mul64(uint64(1 + mod(in.B, 3))).Div64(4)
 		ws := bb.Height + uint64(1+mod(in.A, 4))
 		we := bb.pickWindowEnd(ws + uint64(1+mod(in.A/4, 3)))
+		if !bb.UniqueWindows {
+			// shared-window mode: cluster window ends on multiples of three so
+			// that expiration lists with several entries are common
+			we = (bb.Height/3 + 2) * 3
+			ws = we - 1 - uint64(mod(in.A, 2))
+			if ws < bb.Height {
+				ws = bb.Height
+			}
+			if we == bb.L.State.Network.HardforkV2.RequireHeight {
+				we++
+			}
+		}
 		fc := types.FileContract{
 			WindowStart: ws, WindowEnd: we, Payout: payout, UnlockHash: Actors[who].Addr,
 			ValidProofOutputs:  []types.SiacoinOutput{{Address: Actors[who].Addr, Value: rv}, {Address: Actors[to].Addr, Value: validSum.Sub(rv)}},
@@ -607,6 +649,12 @@ func (bb *BlockBuilder) Add(in Intent) bool {
 		if mod(in.A, 2) == 1 { // window change
 			rev.WindowStart = maxU64(rev.WindowStart, bb.Height) + uint64(mod(in.B, 2))
 			rev.WindowEnd = bb.pickWindowEnd(rev.WindowStart + uint64(1+mod(in.B/2, 3)))
+			if !bb.UniqueWindows {
+				rev.WindowEnd = (rev.WindowStart/3 + 1 + uint64(mod(in.B, 2))) * 3
+				if rev.WindowEnd == bb.L.State.Network.HardforkV2.RequireHeight {
+					rev.WindowEnd++
+				}
+			}
 		}
 		if mod(in.Amt, 2) == 1 && len(rev.ValidProofOutputs) == 2 { // move value renter -> host
 			d := rev.ValidProofOutputs[0].Value.Div64(3)
@@ -833,6 +881,7 @@ func (bb *BlockBuilder) Add(in Intent) bool {
 			nc.HostOutput.Value = fc.HostOutput.Value
 			nc.MissedHostValue = fc.HostOutput.Value
 			nc.TotalCollateral = types.ZeroCurrency
+			signContract(cs, &nc, renter, host)
 			ren := types.V2FileContractRenewal{NewContract: nc}
 			// roll part of each side over, pay the rest out
 			ren.RenterRollover = fc.RenterOutput.Value.Mul64(uint64(mod(in.Amt, 3))).Div64(2)
@@ -902,13 +951,13 @@ func (bb *BlockBuilder) newV2Contract(in Intent, renter, host int) types.V2FileC
 	unit := types.Siacoins(uint32(1 + mod(in.Amt, 5)))
 	fc := types.V2FileContract{
 		Capacity: 64, Filesize: 64, FileMerkleRoot: bb.L.State.StorageProofLeafHash(leaf[:]),
-		ProofHeight:      bb.Height + uint64(1+mod(in.A, 4)),
-		RenterOutput:     types.SiacoinOutput{Address: Actors[renter].Addr, Value: unit.Mul64(2)},
-		HostOutput:       types.SiacoinOutput{Address: Actors[host].Addr, Value: unit},
-		MissedHostValue:  unit.Div64(2),
-		TotalCollateral:  unit.Div64(2),
-		RenterPublicKey:  Actors[renter].PK,
-		HostPublicKey:    Actors[host].PK,
+		ProofHeight:     bb.Height + uint64(1+mod(in.A, 4)),
+		RenterOutput:    types.SiacoinOutput{Address: Actors[renter].Addr, Value: unit.Mul64(2)},
+		HostOutput:      types.SiacoinOutput{Address: Actors[host].Addr, Value: unit},
+		MissedHostValue: unit.Div64(2),
+		TotalCollateral: unit.Div64(2),
+		RenterPublicKey: Actors[renter].PK,
+		HostPublicKey:   Actors[host].PK,
 	}
 	fc.ExpirationHeight = fc.ProofHeight + uint64(1+mod(in.B, 3))
 	signContract(bb.L.State, &fc, renter, host)
@@ -930,7 +979,9 @@ func maxU64(a, b uint64) uint64 {
 // indivisible by the required factor, which is just as invalid.
 func Grind(cs consensus.State, b *types.Block, ok bool) {
 	factor := cs.NonceFactor()
-	b.Nonce = 0
+	// keep the salt part of the nonce (see AssembleBlock): distinct tree nodes
+	// get distinct ids even when parent, timestamp, miner and transactions agree
+	b.Nonce = (b.Nonce / (factor << 24)) * (factor << 24)
 	limit := 1 << 22
 	if !ok {
 		limit = 4096
@@ -945,7 +996,7 @@ func Grind(cs consensus.State, b *types.Block, ok bool) {
 		panic("kit: cannot grind nonce")
 	}
 	if factor > 1 {
-		b.Nonce = factor + 1
+		b.Nonce += factor + 1
 	}
 }
 
@@ -957,14 +1008,13 @@ func AssembleBlock(cs consensus.State, ts time.Time, miner types.Address, txns [
 	}
 	h := cs.Index.Height + 1
 	if h >= cs.Network.HardforkV2.AllowHeight {
-		var saltb [8]byte
-		binary.LittleEndian.PutUint64(saltb[:], salt)
 		b.V2 = &types.V2BlockData{Height: h, Transactions: v2txns}
 		for _, t := range v2txns {
 			b.MinerPayouts[0].Value = b.MinerPayouts[0].Value.Add(t.MinerFee)
 		}
 		b.V2.Commitment = cs.Commitment(miner, b.Transactions, b.V2Transactions())
 	}
+	b.Nonce = (salt + 1) * (cs.NonceFactor() << 24)
 	Grind(cs, &b, true)
 	return b
 }
